@@ -170,6 +170,32 @@ def _bypass_true_side(b, de, dsw, emit, w):
     return b.paths_avoiding(implicit, [w], emit)
 
 
+def builder_keys_table(fn):
+    """abstract evaluation of Locale::make_builder_keys on a locale with keys {a, b, c}: (entries got, entries wanted, text)"""
+    from rules import absint
+    from rules.absint import AEval, C, CF, A, T, L, UNIT
+    stack = []
+
+    def S(x):
+        return ("str", x)
+    this = CF("Locale", keys=L(T(S("a"), A("va")), T(S("b"), A("vb")), T(S("c"), A("vc"))), top_locale_name=S("en"), name=S("en"))
+    ev = AEval(funcs={}, builtins={
+        "push_key": lambda rv, a: (stack.append(a[0]), UNIT)[1], "pop_key": lambda rv, a: C("Some", stack.pop()) if stack else C("None"),
+        "unwrap_at": lambda rv, a: (rv[2][0] if rv[0] == "ctor" and rv[1] in ("Some", "Ok") else rv), "reduce": lambda rv, a: UNIT,
+        "make_locale_value": lambda rv, a: C("Ok", A("lv(%s,%s)" % (rv[1], absint.fmt(a[0]))))})
+    ev.path_builtins = {"BuildersKeysInner::default": lambda a: C("BuildersKeysInner", L()), "BTreeMap::new": lambda a: L()}
+    v = ev.run_fn(fn, [this, A("key_path"), A("strings")])
+    got = None
+    if not isinstance(v, str) and v[0] == "ctor" and v[1] == "Ok" and v[2] and v[2][0][0] == "ctor" and v[2][0][1] == "BuildersKeysInner":
+        inner = v[2][0]
+        lst = inner[2][0] if inner[2] else dict(inner[3]).get("0")
+        got = sorted((absint.fmt(x[1][0]), absint.fmt(x[1][1])) for x in lst[1]) if lst and lst[0] == "list" else None
+    want = [("a", "lv(va,en)"), ("b", "lv(vb,en)"), ("c", "lv(vc,en)")]
+    if stack:
+        got = None
+    return got, want, (got if got is not None else (v if isinstance(v, str) else absint.fmt(v)))
+
+
 def r3_accessors(ctx):
     r = Rule("C07.R3", "accessors come from the default locale's key set, partitioned by shape",
              "the accessible keys must be exactly the default locale's keys for every locale", floor=5)
@@ -233,29 +259,11 @@ def r3_accessors(ctx):
         r.inst("who fills BuildersKeysInner", "Locale::make_builder_keys only (called on the default locale / default subkeys)")
     fn = ast.fn(PL, "make_builder_keys", impl_self="Locale")
     if fn is not None:
-        from rules import absint
-        from rules.absint import AEval, C, CF, A, T, L, UNIT
-        stack = []
-
-        def S(x):
-            return ("str", x)
-        this = CF("Locale", keys=L(T(S("a"), A("va")), T(S("b"), A("vb")), T(S("c"), A("vc"))), top_locale_name=S("en"), name=S("en"))
-        ev = AEval(funcs={}, builtins={
-            "push_key": lambda rv, a: (stack.append(a[0]), UNIT)[1], "pop_key": lambda rv, a: C("Some", stack.pop()) if stack else C("None"),
-            "unwrap_at": lambda rv, a: (rv[2][0] if rv[0] == "ctor" and rv[1] in ("Some", "Ok") else rv), "reduce": lambda rv, a: UNIT,
-            "make_locale_value": lambda rv, a: C("Ok", A("lv(%s,%s)" % (rv[1], absint.fmt(a[0]))))})
-        ev.path_builtins = {"BuildersKeysInner::default": lambda a: C("BuildersKeysInner", L()), "BTreeMap::new": lambda a: L()}
-        v = ev.run_fn(fn, [this, A("key_path"), A("strings")])
-        got = None
-        if not isinstance(v, str) and v[0] == "ctor" and v[1] == "Ok" and v[2] and v[2][0][0] == "ctor" and v[2][0][1] == "BuildersKeysInner":
-            inner = v[2][0]
-            lst = inner[2][0] if inner[2] else dict(inner[3]).get("0")
-            got = sorted((absint.fmt(x[1][0]), absint.fmt(x[1][1])) for x in lst[1]) if lst and lst[0] == "list" else None
-        want = [("a", "lv(va,en)"), ("b", "lv(vb,en)"), ("c", "lv(vc,en)")]
-        if got == want and not stack:
+        got, want, shown = builder_keys_table(fn)
+        if got == want:
             r.inst("make_builder_keys", "one builder key per key of self.keys, made from that key's own value with the locale's top_locale_name")
         else:
-            r.viol("R3:make_builder_keys", "for keys {a, b, c} make_builder_keys yields %s (expected one entry per key: %s)" % (got if got is not None else (v if isinstance(v, str) else absint.fmt(v)), want), file=fn.file, line=fn.line)
+            r.viol("R3:make_builder_keys", "for keys {a, b, c} make_builder_keys yields %s (expected one entry per key: %s)" % (shown, want), file=fn.file, line=fn.line)
     return r
 
 
